@@ -60,6 +60,9 @@ EntryOK(i) == LET e == list[i] IN
   /\ Ev.perm = e.perm
 DataOK ==
   CASE Ev.item = "rule" -> /\ Ev.f \in 1..NRules /\ Ev.inc = rulesv[Ev.f].inc /\ Ev.pat = rulesv[Ev.f].pat
+    [] Ev.item = "args" -> \* C14: every option that changes what the remote side must do reaches it, and nothing else does
+                           /\ Ev.sender = Pull
+                           /\ \A k \in {"r", "l", "p", "t", "dv", "sp", "c", "I", "n", "del"} : Ev.sopts[k] = opts[k]
     [] Ev.item = "ent"  -> IsListed(Ev.name) /\ Ev.f = 0 /\ EntryOK(IdxOfName(Ev.name))
     [] Ev.item = "lend" -> Ev.f = ioerr
     [] Ev.item = "idx"  -> /\ Ev.f \in 1..Len(list) /\ Ev.name = list[Ev.f].name
@@ -103,10 +106,9 @@ TInit == /\ t \in 1..Len(Traces) /\ l = 1 /\ st = "run"
          /\ fs0 = ToFs(Tr.dst) /\ fs = fs0
          /\ list = SenderList(srcv, opts, rulesv) /\ ioerr = 0 /\ prot = Protected(rulesv)
          /\ gi = 0 /\ pend = <<>> /\ reqs = <<>> /\ pc = "delete"
-         /\ dirv = Tr.dir
+         /\ dirv = Tr.dir /\ modev = Tr.mode /\ ordv = "any"
          /\ up = <<>> /\ down = <<>> /\ sent = {}
-         /\ snd = P(IF Pull THEN "getver" ELSE "putver", 0)
-         /\ main = P(IF Pull THEN "putver" ELSE "getver", 0)
+         /\ snd = P("hs", 1) /\ main = P("hs", 1)
          /\ gen = P("wait", 0) /\ rcv = P("wait", 0)
 TNext == Step \/ Reject \/ Done
 TSpec == TInit /\ [][TNext]_tvars
